@@ -1,6 +1,7 @@
 SPECIFICATION Spec
 CONSTANTS HourDoesNotZeroMinutes <- Off
           DayMoveKeepsHour <- Off
+          Hour24SoughtLiterally <- Off
           Week53Everywhere <- Off
           AllowKnownClass <- On
           Shapes = 0
